@@ -113,7 +113,31 @@ def comp_row(v, d, j, k, trace=None):
         ok = len(sc) == 1 and sc[0].to_er7() == 'X'
     if trace is not None:
         trace.append('parsed back: %s -> %s ; re-encoded %r' % (cname, ok, g.to_er7()))
-    return ok and g.to_er7() == text
+    if not (ok and g.to_er7() == text):
+        return False
+    # a LATER sibling keeps its index when this child goes away again: populate the last component (subcomponent) too, delete the
+    # one written above, and the other value must still sit after the same number of separators
+    if k < 0 and j < len(comps) - 1:
+        last = comps[-1][0]
+        h = Field('ZZZ_1', datatype=d, version=v, validation_level=2)
+        setattr(h, cname.lower(), 'X')
+        setattr(h, last.lower(), 'Y')
+        delattr(h, cname.lower())
+        want2 = '^' * (T.child_number(last) - 1) + 'Y'
+        if trace is not None:
+            trace.append('%s and %s set, %s deleted -> %r (expected %r)' % (cname, last, cname, h.to_er7(), want2))
+        return h.to_er7() == want2
+    if k >= 0 and k < len(subs) - 1:
+        lastsub = subs[-1][0]
+        h = Field('ZZZ_1', datatype=d, version=v, validation_level=2)
+        setattr(h, 'zzz_1_%d_%d' % (cn, sn), 'X')
+        setattr(h, 'zzz_1_%d_%d' % (cn, T.child_number(lastsub)), 'Y')
+        delattr(getattr(h, cname.lower())[0], sname.lower())
+        want2 = '^' * (cn - 1) + '&' * (T.child_number(lastsub) - 1) + 'Y'
+        if trace is not None:
+            trace.append('%s.%s and .%s set, %s deleted -> %r (expected %r)' % (cname, sname, lastsub, sname, h.to_er7(), want2))
+        return h.to_er7() == want2
+    return True
 
 
 def inst_row(v, kind, name, trace=None):
